@@ -125,8 +125,7 @@ class CompiledExpression:
                 composite_leaves=False)(self._Expression)
         used_variables -= set(self._Variables)
         used_variables -= {pymbolic.var(key) for key in list(ctx.keys())}
-        used_variables = list(used_variables)
-        used_variables.sort()
+        used_variables = sorted(used_variables, key=lambda var: var.name)
         all_variables = self._Variables + used_variables
 
         expr_s = CompileMapper()(self._Expression, PREC_NONE)
